@@ -11,22 +11,42 @@ SHAPES = {'quick': [(1, 1, 'contract'), (2, 1, 'contract'), (1, 2, 'contract')],
 KEEP = ('announced-states', 'check-result')
 
 
-def run(chk, keep=KEEP, pid='C04'):
-    Ds = tailmon.monitor_tail(chk, SHAPES[chk.tier])
+def parts(chk, pid):
+    ps = ['tail:%d' % i for i in range(len(SHAPES[chk.tier]))]
     if pid == 'C04':
         import runmon
-        runmon.monitor_run(chk, chk.tier)
-        callers.monitor_attempt_loop(chk, chk.tier)
-        tailmon.monitor_alignment3(chk)
+        ps += runmon.parts(chk.tier) + ['loop', 'align3']
+    else:
+        ps += ['report']
+    return ps
+
+
+def run(chk, keep=KEEP, pid='C04', script=None):
+    import runmon
+    if pid == 'C04':
         keep = tuple(keep) + ('idle-and-waiting-for-reboot', 'loop-error-announced', 'result-alignment-three-offers', 'run-explored')
     else:
-        import sutmon
-        sutmon.monitor_report(chk, 2)
         keep = tuple(keep) + ('report-once',)
-    chk.obligations = [o for o in chk.obligations if o.name in keep]
+    if not (script and chk.parallel(script, parts(chk, pid), post_merge=runmon.post_merge if pid == 'C04' else None)):
+        if chk.want('tail'):
+            shapes = SHAPES[chk.tier]
+            if (chk.part or '').startswith('tail:'):
+                shapes = [shapes[int(chk.part.split(':')[1])]]
+            tailmon.monitor_tail(chk, shapes)
+        if pid == 'C04':
+            if chk.want('run'):
+                runmon.monitor_run(chk, chk.tier)
+            if chk.want('loop'):
+                callers.monitor_attempt_loop(chk, chk.tier)
+            if chk.want('align3'):
+                tailmon.monitor_alignment3(chk)
+        elif chk.want('report'):
+            import sutmon
+            sutmon.monitor_report(chk, 2)
+    chk.obligations = [o for o in chk.obligations if o.name in keep or o.name.startswith('part:')]
     chk.bounds.update({'(apps in app set, apps in response, installer results)': [list(s) for s in SHAPES[chk.tier]],
                        'install progress notifications': 0, 'attempts': 'first attempt succeeds (the attempt loop is C06)'})
-    chk.assumptions += TAIL_ASSUMPTIONS
+    chk.assumptions += [a for a in TAIL_ASSUMPTIONS if a not in chk.assumptions]
 
 
 TAIL_ASSUMPTIONS = [
@@ -40,7 +60,7 @@ TAIL_ASSUMPTIONS = [
 if __name__ == '__main__':
     chk = Check('C04')
     try:
-        run(chk)
+        run(chk, script=os.path.abspath(__file__))
     except Inconclusive as e:
         o = chk.ob('engine', 'executor could not interpret the code')
         o.status = 'inconclusive'
